@@ -7,7 +7,7 @@ from props import util
 
 THEOREMS = ['C16_scaled_fixed_equiv', 'C16_structured_flatten_equiv', 'C16_external_rows']
 CFG = {'p_coarse': 0.0, 'p_periodic': 0.0, 'T': (3, 8), 'n_assets': (1, 3), 'nodes': (2, 3), 'p_window': 0.2, 'p_market': 0.95, 'p_wacc': 0.3,
-       'p_window_scaled_base': 0.3, 'p_inflow': 0.4, 'p_struct_inside': 0.3,
+       'p_window_scaled_base': 0.3, 'p_inflow': 0.4, 'p_struct_inside': 0.3, 'p_wacc_scaled': 0.3, 'p_struct_scaled': 0.3,
        'kinds': {'ScaledAsset': 4, 'StructuredAsset': 4, 'SimpleContract': 1, 'Transport': 1, 'Storage': 1}}
 
 
